@@ -454,3 +454,65 @@ theorem readFile_tex_open : ∀ (ls : List TLine) (d : Nat) (acc : List Tok) (to
           exact ih d' acc' toks rem h
 
 end C19
+
+namespace C19
+
+def remLen : Option (List TLine) → Nat
+  | none => 0
+  | some r => r.length
+
+/-- `\read` stops at the *first* line end at which the braces balance: after any smaller
+positive number of the lines it consumed, a brace is still open. -/
+theorem readFile_minimal : ∀ (ls : List TLine) (d : Nat) (acc : List Tok), depthAfter acc 0 = some d →
+    ∀ toks rem, readFile ls d acc = .ok toks rem →
+      ∀ k, 0 < k → k < ls.length - remLen rem →
+        ∃ e, depthAfter (acc ++ (ls.take k).flatten) 0 = some (e + 1) := by
+  intro ls
+  induction ls with
+  | nil => intro d acc _ toks rem _ k hk hlt; simp at hlt
+  | cons l ls ih =>
+    intro d acc h toks rem hr k hk hlt
+    simp only [readFile] at hr
+    have hs := scanLine_spec l d acc h
+    cases hsc : scanLine l d acc with
+    | cut acc' =>
+      simp only [hsc] at hr
+      injection hr with h1 h2
+      subst h2
+      cases ls with
+      | nil => simp [remLen] at hlt; omega
+      | cons l2 ls2 => simp [remLen] at hlt; omega
+    | eol acc' d' =>
+      simp only [hsc] at hr
+      obtain ⟨hacc, hd'⟩ := hs.1 acc' d' hsc
+      cases ls with
+      | nil =>
+        simp only at hr
+        split at hr
+        · cases hr
+        · injection hr with h1 h2
+          subst h2
+          simp [remLen] at hlt; omega
+      | cons l2 ls2 =>
+        simp only at hr
+        by_cases hz : d' = 0
+        · simp only [hz, if_true] at hr
+          injection hr with h1 h2
+          subst h2
+          simp [remLen] at hlt; omega
+        · simp only [hz, if_false] at hr
+          cases k with
+          | zero => omega
+          | succ k =>
+            cases k with
+            | zero =>
+              refine ⟨d' - 1, ?_⟩
+              have : d' - 1 + 1 = d' := by omega
+              simp [← hacc, hd', this]
+            | succ k =>
+              have := ih d' acc' hd' toks rem hr (k + 1) (by omega) (by simp at hlt ⊢; omega)
+              obtain ⟨e, he⟩ := this
+              refine ⟨e, ?_⟩
+              simpa [hacc, List.append_assoc] using he
+
+end C19
